@@ -111,6 +111,9 @@ class C01(Prop):
                             continue
                         out.append({'harness': 'step', 'spec': list(spec), 'method': method,
                                     'clip': clip, 'grad_dtype': gdt})
+        # several layers sharing one clip scale (mixed bias / no-bias, conv + linear)
+        for m in ('nb-b', 'conv-lin') + (('three', 'lin-lin') if tier == 'thorough' else ()):
+            out.append({'harness': 'multi-layer-clip', 'model': m, 'mode': 'const'})
         for shape in ([1, 1], [2, 1], [1, 2]):
             out.append({'harness': 'bridging-lemma', 'shape': shape, 'q': 'symbolic'})
         for shape in ([2, 2], [3, 2], [2, 3], [3, 3]):
@@ -120,6 +123,10 @@ class C01(Prop):
     def run(self, cfg, eng):
         if cfg['harness'] == 'bridging-lemma':
             return self.bridging(cfg, eng)
+        if cfg['harness'] == 'multi-layer-clip':
+            # V_l = Ginv_l D_l Ainv_l (uninterpreted inverses), one nu for all layers
+            from vkit.props import C07
+            return C07.PROP.run({'harness': 'step', 'model': cfg['model'], 'mode': cfg['mode']}, eng)
         import kfac.preconditioner as P
         from kfac.enums import ComputeMethod
         spec = tuple(tuple(x) if isinstance(x, list) else x for x in cfg['spec'])
